@@ -24,6 +24,7 @@ import QV.Model.Cplx
 import QV.Lemmas.CplxTensor
 import QV.Lemmas.CplxStorage
 import QV.Lemmas.CplxEinsumEq
+import QV.Lemmas.PyFlag
 
 namespace QV.Props
 namespace C15
@@ -733,6 +734,17 @@ theorem C15_einsum_flags {a b : Tensor R} {sa sb : List Nat} (eq : EinEq) (ha : 
   refine ⟨⟨r, ?_, hrs, hrw, hre⟩, ⟨i, ?_, his, hiw, hie⟩, rfl⟩
   · simp only [einsum, hr, ok_bind, pure_eq_ok]
   · simp only [einsum, hi, ok_bind, pure_eq_ok]
+
+/-- **einsum, the OBJECTS passed as `real_part` / `imag_part`** (documented as `bool`; callers also pass `1` / `0`, `numpy.bool_`
+values, 0-dim bool arrays / tensors): whatever object of whatever kind says `p` resp. `q`, the call is the call with the singletons
+`p`, `q` — so every theorem about `einsumS` / `einsum` (`C15_einsum_string`, `C15_einsum`, `C15_einsum_flags`, …) applies to it.
+(A slip `if real_part is True` would be `isTrueSingleton` in the model: `numpy.True_`, `1` would select nothing.) -/
+theorem C15_einsum_flag (raw : RawEq) (a b : Tensor R) (rp ip : PyFlag) :
+    einsumF raw a b rp ip = einsumS raw a b rp.truthy ip.truthy ∧
+    ∀ (f g : Nat) (p q : Bool), einsumF raw a b (PyFlag.ofBool f p) (PyFlag.ofBool g q) = einsumS raw a b p q := by
+  refine ⟨rfl, fun f g p q => ?_⟩
+  unfold einsumF
+  rw [PyFlag.truthy_ofBool, PyFlag.truthy_ofBool]
 
 /-- **einsum rejects** (torch `RuntimeError`) exactly the equations / shapes that fail `einOk`: wrong number of
 subscripts, a label repeated inside an operand with different lengths, lengths that do not broadcast between the
